@@ -236,6 +236,7 @@ func c16Kinds() map[string][]string {
 }
 
 func c16Run(c *fw.Ctx) {
+	c16Databases(c)
 	kinds := c16Kinds()
 	names := make([]string, 0, len(kinds))
 	for k := range kinds {
@@ -384,6 +385,19 @@ func c16Replay(raw json.RawMessage) (string, bool, error) {
 		Kind string `json:"kind"`
 	}
 	json.Unmarshal(raw, &probe)
+	if probe.Kind == "databases" {
+		var dc c16DBCase
+		if err := json.Unmarshal(raw, &dc); err != nil {
+			return "", false, err
+		}
+		run := c16DBExplorer(dc, 0).New()
+		r := vrt.Run(vrt.Options{Choices: dc.Choices}, run.Body, run.AtQuiet)
+		if r.Diverged != "" {
+			return "", false, fmt.Errorf("schedule does not replay: %s", r.Diverged)
+		}
+		v := run.Verdict(r)
+		return fmt.Sprintf("databases %v schedule=%v clause=%q %s", dc.DBs, dc.Choices, v.Clause, v.Detail), v.Clause != "", nil
+	}
 	if probe.Kind == "restart" {
 		var rc c16Restart
 		if err := json.Unmarshal(raw, &rc); err != nil {
@@ -416,7 +430,7 @@ func init() {
 	fw.Register(&fw.Prop{
 		ID:          "C16",
 		Level:       "model_checking",
-		Rule:        "for every unordered pair of operation kinds from {GET, SET, SETNX, GETSET, INCR, DECRBY, APPEND, MSETNX, DEL, DEL k k, INCRBY 0} (thorough: also triples, and pairs followed by reads): 2 (3) clients issue them concurrently on one shared key (MSETNX over two keys, one shared), initial state absent or '1' (bound 1: also the empty string; and once more on a server with requirepass, every client sending AUTH first), through the real accept loop and connection goroutines, against (a) a reference store whose primitives are atomic steps each preceded by a scheduling point and (b) the instrumented example store (sync.Map operations are scheduling points); every schedule within deviation bound 2; plus 144 held-command scenarios (Restart, Stop+Start or nothing issued while a composite command of client A is held between its read and its first write by a slow store, client B writing the same key through the restarted server, then the held handler released; A's lost reply counts as executed-or-not; deviation bound 1, thorough 2); thorough continues in phases, each complete only when its <phase>_done counter equals <phase>_scenarios: pairs at bound 3, pairs followed by a read on each side at bound 2, triples (reference store) at bound 2, pairs at bound 4, pairs+reads at bound 3, triples at bound 3; each complete execution yields a client-side history (invocation/response stamped with the scheduler's step counter) to which a final read-out of every key by a fresh connection is appended; porcupine checks the whole history for linearizability against the Redis model. A scenario is non-trivial when its schedules produce more than one distinct reply vector.",
+		Rule:        "clients in DIFFERENT databases of the bundled store (5 orders of first use) get the replies they would get alone (bound 1); for every unordered pair of operation kinds from {GET, SET, SETNX, GETSET, INCR, DECRBY, APPEND, MSETNX, DEL, DEL k k, INCRBY 0} (thorough: also triples, and pairs followed by reads): 2 (3) clients issue them concurrently on one shared key (MSETNX over two keys, one shared), initial state absent or '1' (bound 1: also the empty string; and once more on a server with requirepass, every client sending AUTH first), through the real accept loop and connection goroutines, against (a) a reference store whose primitives are atomic steps each preceded by a scheduling point and (b) the instrumented example store (sync.Map operations are scheduling points); every schedule within deviation bound 2; plus 144 held-command scenarios (Restart, Stop+Start or nothing issued while a composite command of client A is held between its read and its first write by a slow store, client B writing the same key through the restarted server, then the held handler released; A's lost reply counts as executed-or-not; deviation bound 1, thorough 2); thorough continues in phases, each complete only when its <phase>_done counter equals <phase>_scenarios: pairs at bound 3, pairs followed by a read on each side at bound 2, triples (reference store) at bound 2, pairs at bound 4, pairs+reads at bound 3, triples at bound 3; each complete execution yields a client-side history (invocation/response stamped with the scheduler's step counter) to which a final read-out of every key by a fresh connection is appended; porcupine checks the whole history for linearizability against the Redis model. A scenario is non-trivial when its schedules produce more than one distinct reply vector.",
 		Assumptions: []string{"sequentially consistent interleavings", "histories of more than 3 clients or 2 operations per client are not explored"},
 		Run:         c16Run,
 		Replay:      c16Replay,
